@@ -11,8 +11,6 @@ Open Scope Z_scope.
 Definition offsets : list (Z * Z) :=
   [(-1,-1); (-1,0); (-1,1); (0,-1); (0,0); (0,1); (1,-1); (1,0); (1,1)].
 
-Definition table_at (t : list (list Z)) (dr dc : Z) : Z :=
-  nth (Z.to_nat (dc + 1)) (nth (Z.to_nat (dr + 1)) t []) (-1).
 
 Definition pair_eqb (a b : Z * Z) : bool := (fst a =? fst b) && (snd a =? snd b).
 
